@@ -335,9 +335,24 @@ PlanC29RgeNs ==
 C29RgeNsVerdict(c, o) ==
   Judge(o.e, IF Switch = "ome-exact" THEN -1700 ELSE IF c.k = 2 THEN -1100 ELSE -300,
         "C29:rge-ns:" \o c.v \o (IF c.k = 2 THEN ":second-order" ELSE ":third-order"))
-PlanC29 == PlanC29Sum \cup PlanC29Rge \cup PlanC29RgeNs
+(* Singlet matrices, second order, judged entry by entry (row <- column in (g, Sigma_light, h+); the        *)
+(* intrinsic heavy-quark column exists at first order only):                                                *)
+(*     dA2/dL = beta0' A1 + G1(nf) + d1 G0(nf) - G1(nf+1) + A1 G0(nf) - G0(nf+1) A1                          *)
+(* G(nf): nf-flavour singlet matrix, heavy quark inert.  G(nf+1): evolution of (g, Sigma_light + h+) with   *)
+(* the (nf+1)-flavour singlet matrix and of Sigma_light - nf h+ with gamma_ns^+, rewritten in the basis:     *)
+(*     g row (gg, gq, gq); Sigma row (nf qg, nf qq + ns, nf (qq - ns)) / (nf+1);                              *)
+(*     h+ row (qg, qq - ns, qq + nf ns) / (nf+1)                                                              *)
+(* All anomalous dimensions, beta0 and d1 are the code's own.  Unchanged tree: 6e-16 (unpolarised).          *)
+OmeEntries2 == {"gg", "gq", "qg", "qq", "hg", "hq"}
+PlanC29Rge2 ==
+  {[law |-> "OmeRge2", v |-> v, entry |-> en, k |-> 2, nf |-> nf, j |-> j] :
+     v \in {"us", "ps"}, en \in OmeEntries2, nf \in OmeNf, j \in Pts}
+C29Rge2Verdict(c, o) ==
+  Judge(o.e, IF Switch = "ome-exact" THEN -1700 ELSE -1100, "C29:rge2:" \o c.v \o ":" \o c.entry)
+PlanC29 == PlanC29Sum \cup PlanC29Rge \cup PlanC29RgeNs \cup PlanC29Rge2
 C29Verdict(c, o) == IF c.law = "OmeRge" THEN C29RgeVerdict(c, o)
-                    ELSE IF c.law = "OmeRgeNs" THEN C29RgeNsVerdict(c, o) ELSE C29SumVerdict(c, o)
+                    ELSE IF c.law = "OmeRgeNs" THEN C29RgeNsVerdict(c, o)
+                    ELSE IF c.law = "OmeRge2" THEN C29Rge2Verdict(c, o) ELSE C29SumVerdict(c, o)
 
 (* ===========================================================================*)
 Checks == {"C24", "C25", "C26", "C27", "C29", "C30"}
